@@ -282,7 +282,7 @@ func (x *Exec) convert(from, to types.Type, v Value) Value {
 				if ff.Info()&types.IsInteger != 0 {
 					t := v.(*Term)
 					if !t.IsConst() {
-						x.unsupported("string(symbolic int)")
+						return &Str{Opaque: true}
 					}
 					return MkStr(string(rune(t.Int64())))
 				}
